@@ -8,7 +8,14 @@ import (
 	"github.com/tinode/chat/server/zzverif/vsched"
 )
 
+// OnOp, when set by a harness, is told of every atomic operation of instrumented code before it
+// happens (a place to land an injected event between two plain statements).
+var OnOp func(write bool)
+
 func pt(write bool) {
+	if OnOp != nil && vsched.Active() {
+		OnOp(write)
+	}
 	if vsched.Active() && (write || vsched.YieldOnAtomicLoads()) {
 		vsched.Yield("atomic")
 	}
